@@ -73,6 +73,8 @@ def parse(text):
             i = int(f[1])
             op = f[2]
             if op == "in":
+                if re.fullmatch(r"n\d+", f[3]) or f[3] in ("c", "c3", "fn", "K"):
+                    raise SystemExit("emit.py: input name %r of unit %s clashes with generated binders (n<k>, c, c3, fn, K)" % (f[3], cur.name))
                 cur.nodes[i] = ("in", f[3])
                 cur.inputs.append(f[3])
             elif op == "const":
